@@ -73,6 +73,11 @@ Proof.
       + destruct (suf T o) as [q|]; [|inversion H; subst; exact Sl].
         destruct (continues q p); [|inversion H; subst; exact Sl].
         refine (IHl p _ _ x r _ H); cbn [shaped]; auto.
+    - destruct (callr T) as [q|]; [|inversion H; subst; exact Sl].
+      destruct (continues q p); [|inversion H; subst; exact Sl].
+      destruct (slots T f S0 ts) as [[a r0]|] eqn:E; [|discriminate].
+      destruct r0 as [|t0 r0]; [discriminate|]. destruct t0; try discriminate.
+      apply IHs in E. destruct E as [E1 E2]. refine (IHl p _ _ x r _ H); cbn [shaped]; auto.
     - destruct (bin T sym_index) as [q|]; [|inversion H; subst; exact Sl].
       destruct (continues q p); [|inversion H; subst; exact Sl].
       destruct (slots T f S0 ts) as [[a r0]|] eqn:E; [|discriminate].
